@@ -68,7 +68,7 @@ func DrawProfile(property, tier string, r *PRNG) *Profile {
 	p.PGenesis = Pick(r, []float64{0, 0, 0, 0.03})
 	p.StyleRate = Pick(r, []float64{0, 0.1, 0.3})
 	p.DtMix = []float64{1, 1, 2, 8, 2, 1.5, 1, 0.4}
-	p.GenesisK = Pick(r, []string{"default", "default", "default", "seeded", "zerofee"})
+	p.GenesisK = Pick(r, []string{"default", "default", "default", "seeded", "zerofee", "exported"})
 	p.PTie = 0.12
 	// accounts that are not key accounts: 32-byte module / group-policy addresses, other valid lengths
 	for i, n := 0, Pick(r, []int{0, 0, 1, 2}); i < n; i++ {
@@ -78,6 +78,7 @@ func DrawProfile(property, tier string, r *PRNG) *Profile {
 		}
 		p.AddrLens = append(p.AddrLens, l)
 	}
+	p.AddrPrefixPairs = len(p.AddrLens) > 0 && r.Chance(0.5)
 	if thorough && r.Chance(0.3) {
 		p.WideW = 1.5
 	}
@@ -130,6 +131,11 @@ func DrawProfile(property, tier string, r *PRNG) *Profile {
 		p.PHostile = Pick(r, []float64{0.15, 0.25, 0.4})
 		p.PStale = Pick(r, []float64{0.3, 0.5})
 		scale(p.Weights, dataKinds, 0.2)
+		// whose balance is whose: accounts whose addresses extend one another's bytes
+		if len(p.AddrLens) == 0 && r.Chance(0.4) {
+			p.AddrLens = []int{32}
+		}
+		p.AddrPrefixPairs = len(p.AddrLens) > 0 && r.Chance(0.7)
 	case "C04":
 		core("Send", "Retire", "Take", "Buy", "Sell", "Put", "Cancel", "Mint", "BasketCreate")
 		scale(p.Weights, []string{"Retire", "Send", "Take", "Buy"}, 1.5)
@@ -206,7 +212,7 @@ func DrawProfile(property, tier string, r *PRNG) *Profile {
 		core(createKinds...)
 		scale(p.Weights, createKinds, 2.5)
 		p.PGas = Pick(r, []float64{0.15, 0.3})
-		p.GenesisK = Pick(r, []string{"default", "seeded", "seeded"})
+		p.GenesisK = Pick(r, []string{"default", "seeded", "seeded", "exported"})
 		scale(p.Weights, dataKinds, 0.2)
 	case "C15", "C16":
 		core(dataKinds...)
@@ -221,7 +227,7 @@ func DrawProfile(property, tier string, r *PRNG) *Profile {
 		p.PGenesis = Pick(r, []float64{0, 0.03})
 	case "C17":
 		p.PQuery = Pick(r, []float64{0.3, 0.5, 0.8})
-		p.GenesisK = Pick(r, []string{"default", "seeded", "seeded"})
+		p.GenesisK = Pick(r, []string{"default", "seeded", "seeded", "exported"})
 		scale(p.Weights, dataKinds, 3)
 		p.MaxTxs = r.Range(30, 120)
 		if r.Chance(0.35) {
@@ -250,7 +256,7 @@ func DrawProfile(property, tier string, r *PRNG) *Profile {
 		scale(p.Weights, govKinds, 3)
 		scale(p.Weights, []string{"CreateClass", "BasketCreate"}, 2)
 		p.PProbe = Pick(r, []float64{0.15, 0.3})
-		p.GenesisK = Pick(r, []string{"default", "default", "zerofee", "feeedge", "seeded"})
+		p.GenesisK = Pick(r, []string{"default", "default", "zerofee", "feeedge", "seeded", "exported"})
 	}
 	// broad properties: every run additionally focuses on one area, so that each area is explored in depth
 	switch property {
